@@ -45,7 +45,10 @@ class Env:
             raise exc(f"injected at callback #{self.count} {label}")
 
 
-EXC = {"ValueError": ValueError, "RuntimeError": RuntimeError, "KeyboardInterrupt": KeyboardInterrupt, "TypeError": TypeError}
+EXC = {"ValueError": ValueError, "RuntimeError": RuntimeError, "KeyboardInterrupt": KeyboardInterrupt, "TypeError": TypeError,
+       # classes that library code is likely to catch for its own purposes (dictionary / attribute lookups, iteration)
+       "KeyError": KeyError, "IndexError": IndexError, "AttributeError": AttributeError, "StopIteration": StopIteration,
+       "MemoryError": MemoryError}
 
 CONFIGS = {
     # name: (path, sizes, E, hermitian)
